@@ -101,6 +101,10 @@ CLAIMED["C37"] = dict(engine="cluster", design="§6 C37",
    technique=TECH + "source operations (uploads, deletes, compactions) scheduled against backup runs whose VolumeIncrementalCopy stream is gated on the simulated network, so writes are released while the stream is open; convergence oracle after every quiet backup run",
    text="A source volume on a real volume server is written, deleted from and compacted while backup runs following command/backup.go (sync status, local compaction when the source revision moved, discard when longer, IncrementalBackup) pull through the real copy stream over the simulated network; the plan releases source writes while the stream is open. After every backup run during which the source was quiet, every key read from the backup volume equals the source's live content (missing, stale and undeleted blobs are violations).",
    note=CLUSTERNOTE + " The backup command's steps are reproduced by the harness (runBackup reads process flags); stream faults are not injected.")
+CLAIMED["C25"] = dict(engine="cluster", design="§6 C25",
+   technique=TECH + "real master, volume server and filer on a simulated network; request bodies that fail after k bytes, dropped Assign RPCs and dropped / response-lost chunk uploads released per plan (client-library retries on the fake clock); byte-equality oracle through the filer's own read handler",
+   text="PUT, multipart POST and append requests with bodies around the inline limit and the 1 MB chunk boundary go through the real filer handlers, which assign and upload chunks to a real volume server; a GET through the filer follows every request. Success means the stored bytes equal the body (append: old followed by new); a request whose body failed is never reported successful; after a reported failure the file is unchanged or absent (or, without a body failure, completely written), never truncated.",
+   note=CLUSTERNOTE + " Chunk sizes are whole megabytes in this version; one volume server, replication 000.")
 
 PLANNED = {}
 
